@@ -677,16 +677,57 @@ type cacheFull struct {
 }
 
 // keptLists remembers the removed-lists SetAndGetRemoved handed out: they belong to the caller, so they must
-// still hold the same values after any number of later calls.
+// still hold the same values after any number of later calls. In the sequential parts (lists set) the same holds
+// for the slices Keys() and Items() returned: a result is a snapshot, later calls must not write into it.
 type keptLists struct {
 	mu    sync.Mutex
 	items []keptList
+	// sequential parts only (no lock, no shared memory between the goroutines of the concurrent parts)
+	lists    bool
+	listings []keptListing
+	elems    int // elements retained in listings so far
+	long     int // retained listings of more than 64 elements
+	skipped  int // listings not retained (budget)
 }
 
 type keptList struct {
 	n    int
 	at   func(i int) int // reads the retained slice again
 	then []int           // what it held when it was returned
+}
+
+// keptListing is one retained result of Keys() or Items().
+type keptListing struct {
+	api  string
+	n    func() int     // length of the retained slice now
+	at   func(i int) KV // reads the retained slice again (Keys: V = 0)
+	then []KV
+}
+
+const (
+	keptElemBudget = 6000 // retained elements per case
+	keptLongMax    = 6    // retained listings of more than 64 elements per case
+)
+
+// keepListing retains a Keys()/Items() result (within the budget of the case).
+func (k *keptLists) keepListing(api string, n func() int, at func(i int) KV) {
+	if k == nil || !k.lists {
+		return
+	}
+	ln := n()
+	if ln == 0 || k.elems+ln > keptElemBudget || (ln > 64 && k.long >= keptLongMax) {
+		k.skipped++
+		return
+	}
+	if ln > 64 {
+		k.long++
+	}
+	k.elems += ln
+	then := make([]KV, ln)
+	for i := range then {
+		then[i] = at(i)
+	}
+	k.listings = append(k.listings, keptListing{api, n, at, then})
 }
 
 func (k *keptLists) keep(n int, at func(i int) int, then []int) {
@@ -710,6 +751,31 @@ func (k *keptLists) changed() string {
 		}
 	}
 	return ""
+}
+
+// listingChanged is changed() for the retained results of Keys() and Items(): site suffix and description of the
+// first one that no longer holds what it held when it was returned.
+func (k *keptLists) listingChanged() (api, msg string) {
+	if k == nil {
+		return "", ""
+	}
+	for _, l := range k.listings {
+		if n := l.n(); n != len(l.then) {
+			return l.api, fmt.Sprintf("a slice returned by %s() had %d elements when it was returned and has %d after later calls", l.api, len(l.then), n)
+		}
+		for i := range l.then {
+			if now := l.at(i); now != l.then[i] {
+				show := func(e KV) string {
+					if l.api == "Keys" {
+						return e.K.String()
+					}
+					return fmt.Sprintf("%v=#%d", e.K, e.V)
+				}
+				return l.api, fmt.Sprintf("a slice returned by %s() (%d elements) held %s at index %d when it was returned; after later calls of the cache the same slice holds %s there - a result is the caller's snapshot, later calls must not write into it", l.api, len(l.then), show(l.then[i]), i, show(now))
+			}
+		}
+	}
+	return "", ""
 }
 
 func (a cacheFull) SetIfAbsent(k any, v sv) { a.c.SetIfAbsent(k, cacheVal(v)) }
@@ -736,6 +802,7 @@ func (a cacheFull) Keys() []Key {
 	for i, k := range ks {
 		out[i] = keyOf(k)
 	}
+	a.kept.keepListing("Keys", func() int { return len(ks) }, func(i int) KV { return KV{K: keyOf(ks[i])} })
 	return out
 }
 func (a cacheFull) Items() []KV {
@@ -744,6 +811,7 @@ func (a cacheFull) Items() []KV {
 	for i, it := range its {
 		out[i] = KV{keyOf(it.Key), valID(it.Value)}
 	}
+	a.kept.keepListing("Items", func() int { return len(its) }, func(i int) KV { return KV{keyOf(its[i].Key), valID(its[i].Value)} })
 	return out
 }
 
@@ -785,6 +853,7 @@ func (a tinyFull) Keys() []Key {
 	for i, k := range ks {
 		out[i] = keyOf(k)
 	}
+	a.kept.keepListing("Keys", func() int { return len(ks) }, func(i int) KV { return KV{K: keyOf(ks[i])} })
 	return out
 }
 func (a tinyFull) Items() []KV {
@@ -793,6 +862,7 @@ func (a tinyFull) Items() []KV {
 	for i, it := range its {
 		out[i] = KV{keyOf(it.Key), valID(it.Value)}
 	}
+	a.kept.keepListing("Items", func() int { return len(its) }, func(i int) KV { return KV{keyOf(its[i].Key), valID(its[i].Value)} })
 	return out
 }
 
@@ -834,11 +904,17 @@ func newFull(impl string, capa int64, viaFacade bool) (fullTarget, string) {
 }
 
 // newWide builds a sharded cache and the function that maps a key to its shard
-// (the public remap index the constructors are documented to use).
-func newWide(impl string, capa int64, shards int, xhash bool) (target, func(Key) int) {
-	opt := remap.WithPrime(uint64(shards))
-	rm := remap.NewReMap(opt)
-	idx := func(k Key) int {
+// (the public remap index the constructors are documented to use). shards == 0
+// is the default configuration: no option at all (remap.DefaultPrime shards);
+// n is the number of shards the cache then has.
+func newWide(impl string, capa int64, shards int, xhash bool) (t target, idx func(Key) int, n int) {
+	var opts []remap.Option
+	if shards > 0 {
+		opts = append(opts, remap.WithPrime(uint64(shards)))
+	}
+	rm := remap.NewReMap(opts...)
+	n = int(rm.Numbs())
+	idx = func(k Key) int {
 		x, _ := k.iface()
 		if xhash {
 			return rm.XHashIndex(x)
@@ -848,16 +924,16 @@ func newWide(impl string, capa int64, shards int, xhash bool) (target, func(Key)
 	switch impl {
 	case implWCach:
 		if xhash {
-			return cacheFacade{cache.NewWideXHashLRUCache(capa, opt)}, idx
+			return cacheFacade{cache.NewWideXHashLRUCache(capa, opts...)}, idx, n
 		}
-		return cacheFacade{cache.NeWideLRUCache(capa, opt)}, idx
+		return cacheFacade{cache.NeWideLRUCache(capa, opts...)}, idx, n
 	case implWTiny:
 		if xhash {
-			return tinyFacade{tiny.NewWideXHashLRU(capa, opt)}, idx
+			return tinyFacade{tiny.NewWideXHashLRU(capa, opts...)}, idx, n
 		}
-		return tinyFacade{tiny.NeWideLRU(capa, opt)}, idx
+		return tinyFacade{tiny.NeWideLRU(capa, opts...)}, idx, n
 	}
-	return nil, nil
+	return nil, nil, 0
 }
 
 // perShardCap is the capacity the wide constructors give each shard.
@@ -1153,6 +1229,7 @@ func ExecSeq(c SeqCase) *vkit.Result {
 	if c.Cap == 0 {
 		res.Class("capacity 0")
 	}
+	keptOf(t).lists = true // sequential: every Keys()/Items() result is retained and read again at the end
 	m := &ideal{unit: c.Impl == implTiny, capa: c.Cap}
 	// a new cache is an empty ideal LRU
 	got, want := observe(t), m.snapshot()
@@ -1198,19 +1275,9 @@ func ExecSeq(c SeqCase) *vkit.Result {
 	if most >= 50 {
 		res.Class("50 or more live entries")
 	}
-	// removed-lists handed out earlier still hold what they held
-	var kl *keptLists
-	switch f := t.(type) {
-	case cacheFull:
-		kl = f.kept
-	case tinyFull:
-		kl = f.kept
-	}
-	if msg := kl.changed(); msg != "" {
-		return res.Failf(c.Impl+"/SetAndGetRemoved/retained", "%s", msg)
-	}
-	if kl != nil && len(kl.items) > 1 {
-		res.Class("removed-lists retained and re-checked")
+	// removed-lists handed out earlier still hold what they held, and so do the results of Keys() and Items()
+	if !checkKept(res, c.Impl, keptOf(t)) {
+		return res
 	}
 	// StatsJSON is the same four numbers
 	js, bad := parseStatsJSON(t.StatsJSON())
@@ -1221,6 +1288,36 @@ func ExecSeq(c SeqCase) *vkit.Result {
 		return res.Failf(c.Impl+"/StatsJSON", "StatsJSON() = %s, ideal LRU: %s", t.StatsJSON(), Out{N: st}.show(kStats))
 	}
 	return res
+}
+
+// keptOf is the retention record of a single cache built by newFull.
+func keptOf(t fullTarget) *keptLists {
+	switch f := t.(type) {
+	case cacheFull:
+		return f.kept
+	case tinyFull:
+		return f.kept
+	}
+	return nil
+}
+
+// checkKept reads every retained slice again (removed-lists, Keys() and Items() results).
+func checkKept(res *vkit.Result, impl string, kl *keptLists) bool {
+	if msg := kl.changed(); msg != "" {
+		res.Failf(impl+"/SetAndGetRemoved/retained", "%s", msg)
+		return false
+	}
+	if api, msg := kl.listingChanged(); msg != "" {
+		res.Failf(impl+"/"+api+"/retained", "%s", msg)
+		return false
+	}
+	if kl != nil && len(kl.items) > 1 {
+		res.Class("removed-lists retained and re-checked")
+	}
+	if kl != nil && len(kl.listings) > 2 {
+		res.Class("Keys/Items results retained and re-checked")
+	}
+	return true
 }
 
 // ---- generators -------------------------------------------------------------
@@ -1480,7 +1577,7 @@ func wideProblem(impl string, shards int, capa int64) string {
 	if impl != implWCach && impl != implWTiny {
 		return "case:unknown-impl"
 	}
-	if shards < 1 || shards > 4096 {
+	if shards < 0 || shards > 4096 { // 0: the default configuration (no option)
 		return "case:shard-count-out-of-domain"
 	}
 	if capa < 0 {
@@ -1545,8 +1642,8 @@ func ExecWide(c WideCase) *vkit.Result {
 		res.Skip(p)
 		return res
 	}
-	t, idx := newWide(c.Impl, c.Cap, c.Shards, c.XHash)
-	w := newWideIdeal(c.Impl == implWTiny, c.Cap, c.Shards, idx)
+	t, idx, nsh := newWide(c.Impl, c.Cap, c.Shards, c.XHash)
+	w := newWideIdeal(c.Impl == implWTiny, c.Cap, nsh, idx)
 	ops := wideOps(res, normOps(c.Ops))
 	pool := distinctKeys(ops)
 	route := "modulo"
@@ -1554,7 +1651,10 @@ func ExecWide(c WideCase) *vkit.Result {
 		route = "xxhash"
 	}
 	res.Class(fmt.Sprintf("impl %s", c.Impl))
-	res.Class(fmt.Sprintf("%s, %d shards", route, c.Shards))
+	res.Class(fmt.Sprintf("%s, %d shards", route, nsh))
+	if c.Shards == 0 {
+		res.Class("default configuration (no option)")
+	}
 	perShard := map[int]int{}
 	for _, k := range pool {
 		perShard[idx(k)]++
@@ -1628,14 +1728,52 @@ var wideUniverse = func() []Key {
 
 var groupCache = map[string][][]Key{}
 
+// universeFor is the key domain for a shard count (0 = the default configuration): the fixed small one up to 7
+// shards, and one that grows with the number of shards beyond (so that single shards still get several keys).
+func universeFor(shards int) []Key {
+	if shards > 0 && shards <= 7 {
+		return wideUniverse
+	}
+	if shards == 0 {
+		shards = int(remap.DefaultPrime)
+	}
+	groupMu.Lock()
+	defer groupMu.Unlock()
+	if ks, ok := universeCache[shards]; ok {
+		return ks
+	}
+	var ks []Key
+	for i := -3; i <= 6*shards; i++ {
+		ks = append(ks, Key{T: "int", I: int64(i)})
+	}
+	for i := 0; i <= 2*shards; i++ {
+		ks = append(ks, Key{T: "int64", I: int64(i)}, Key{T: "uint32", I: int64(i)})
+	}
+	for i := 0; i <= 5*shards; i++ {
+		ks = append(ks, Key{T: "string", S: fmt.Sprintf("k%d", i)})
+	}
+	universeCache[shards] = ks
+	return ks
+}
+
+var universeCache = map[int][]Key{}
+
 func shardGroups(xhash bool, shards int) [][]Key {
 	id := fmt.Sprintf("%v/%d", xhash, shards)
+	uni := universeFor(shards)
+	groupMu.Lock()
+	defer groupMu.Unlock()
 	if g, ok := groupCache[id]; ok {
 		return g
 	}
-	rm := remap.NewReMap(remap.WithPrime(uint64(shards)))
-	g := make([][]Key, shards)
-	for _, k := range wideUniverse {
+	var opts []remap.Option
+	if shards > 0 {
+		opts = append(opts, remap.WithPrime(uint64(shards)))
+	}
+	rm := remap.NewReMap(opts...)
+	n := int(rm.Numbs())
+	g := make([][]Key, n)
+	for _, k := range uni {
 		x, _ := k.iface()
 		var i int
 		if xhash {
@@ -1643,13 +1781,15 @@ func shardGroups(xhash bool, shards int) [][]Key {
 		} else {
 			i = rm.SimpleIndex(x)
 		}
-		if i >= 0 && i < shards {
+		if i >= 0 && i < n {
 			g[i] = append(g[i], k)
 		}
 	}
 	groupCache[id] = g
 	return g
 }
+
+var groupMu sync.Mutex
 
 // genWidePool draws 1-2 "hot" shards with lo..hi keys each plus a few keys
 // anywhere.
@@ -1681,7 +1821,7 @@ func genWidePool(t *rapid.T, xhash bool, shards, lo, hi, extra int) []Key {
 		}
 	}
 	for i, n := 0, rapid.IntRange(0, extra).Draw(t, "extrakeys"); i < n; i++ {
-		add(rapid.SampledFrom(wideUniverse).Draw(t, "extrakey"))
+		add(rapid.SampledFrom(universeFor(shards)).Draw(t, "extrakey"))
 	}
 	return pool
 }
@@ -1704,17 +1844,31 @@ func genWideCap(t *rapid.T, shards int, unit bool) int64 {
 	}
 }
 
+// genShards draws a shard count: mostly 1, 2, 3 or 7 (several keys per shard come cheap), one case in four one of
+// 73, 211, 257 or 0 = the default configuration (no option: remap.DefaultPrime = 73 shards).
+func genShards(t *rapid.T) int {
+	return rapid.SampledFrom([]int{1, 2, 3, 7, 1, 2, 3, 7, 1, 2, 3, 7, 73, 211, 257, 0}).Draw(t, "shards")
+}
+
+// shardCount is the number of shards a wide cache built with the Shards field of a case has.
+func shardCount(shards int) int {
+	if shards == 0 {
+		return int(remap.DefaultPrime)
+	}
+	return shards
+}
+
 var wideKinds = weighted(kSet, 40, kGet, 20, kPeek, 8, kExist, 6, kDel, 12)
 
 func GenWide(t *rapid.T) WideCase {
 	c := WideCase{
 		Impl:   rapid.SampledFrom([]string{implWCach, implWCach, implWTiny}).Draw(t, "impl"),
 		XHash:  rapid.Bool().Draw(t, "xhash"),
-		Shards: rapid.SampledFrom([]int{1, 2, 3, 7}).Draw(t, "shards"),
+		Shards: genShards(t),
 	}
-	c.Cap = genWideCap(t, c.Shards, c.Impl == implWTiny)
+	c.Cap = genWideCap(t, shardCount(c.Shards), c.Impl == implWTiny)
 	pool := genWidePool(t, c.XHash, c.Shards, 2, 5, 3)
-	share := perShardCap(c.Cap, c.Shards)
+	share := perShardCap(c.Cap, shardCount(c.Shards))
 	c.Ops = history(t, opGen(wideKinds, pool, genProfile(t), share, 12), maxOps()+10, "ops")
 	if c.Impl == implWTiny {
 		sprinkleNil(t, c.Ops)
@@ -1754,7 +1908,7 @@ func sprinkleVals(t *rapid.T, ops []Op) {
 
 var PartWide = &vkit.Part[WideCase]{
 	Property: Property, Name: "wide",
-	Rule:  "rapid: cache.NeWideLRUCache / NewWideXHashLRUCache / tiny.NeWideLRU / NewWideXHashLRU with remap.WithPrime(1|2|3|7), total capacity chosen so that the per-shard share capacity/shards+1 is 1..8 (or any 0..40); keys (int, int64, uint32, string) picked by their public remap index (SimpleIndex / XHashIndex) so that 1-2 shards get 2-5 keys each; up to 60 calls of the facade (Set, Get, Peek, Exist, Delete). Model: one ideal LRU per shard with capacity capacity/shards+1; after every call the result and an Exist+Peek sweep over every key of the case must agree. Non-trivial: at least one eviction happened in some shard; distinct = distinct case JSON",
+	Rule:  "rapid: cache.NeWideLRUCache / NewWideXHashLRUCache / tiny.NeWideLRU / NewWideXHashLRU with remap.WithPrime(1|2|3|7, one case in four 73|211|257 or no option at all = the default 73 shards), total capacity chosen so that the per-shard share capacity/shards+1 is 1..8 (or any 0..40); keys (int, int64, uint32, string) picked by their public remap index (SimpleIndex / XHashIndex) so that 1-2 shards get 2-5 keys each; up to 60 calls of the facade (Set, Get, Peek, Exist, Delete). Model: one ideal LRU per shard with capacity capacity/shards+1; after every call the result and an Exist+Peek sweep over every key of the case must agree. Non-trivial: at least one eviction happened in some shard; distinct = distinct case JSON",
 	Quick: 8000, Thorough: 20000,
 	Gen: GenWide, Exec: ExecWide,
 }
